@@ -18,7 +18,8 @@ return is the expression written there or what reaches the local named there; ev
 early returns read like the for/else + single return; the closures of the two responder factories, `_get_responder`,
 `map_http_methods` are read through `inlined_view` (c01_helpers: a local that only names an attribute chain is the chain; a
 statement / tail / value call of a plain module-level, same-class or sibling helper is its body), `set_default_responders` and
-the registration functions through `aliased_view`.  A response object or method list handed to a callee that is not read in
+the registration functions through `aliased_view` / `_registry_view` (wave k4: a plain helper that is HANDED `self._sinks` / `self._static_routes`
+is written out at the call, its parameter being the list).  A response object or method list handed to a callee that is not read in
 place is UnknownIdiom (exit 2), never "the header is missing".
 Roles inside those functions are found by def-use from contract positions
 (return-tuple positions of `_get_responder`, parameter positions, the 3-tuple
@@ -517,6 +518,168 @@ def _concat_operands(e) -> List[Tuple[str, bool]]:
     return out
 
 
+def _registry_view(p, f: Func) -> Func:
+    """`f` (its aliased view) with every call `self.h(.., self._sinks, ..)` / `h(.., self._static_routes, ..)` of a plain
+    helper (c01_helpers._plain_helper: same class or module level, synchronous, undecorated, falls off its end) that is
+    HANDED one of the two registration lists replaced by h's body, the parameter bound to the list written as the list
+    attribute itself: `registry.insert(0, entry)` in `App._push_fallback_entry(self, registry, entry)` called as
+    `self._push_fallback_entry(self._sinks, (prefix, sink, True))` is `self._sinks.insert(0, <entry>)` inside add_sink,
+    followed by whatever else the helper does (the refresh).  The parameter IS the attribute only while both name one
+    object: h never re-binds the parameter, never stores to an attribute called like the lists, and up to its last use of
+    the parameter calls nothing that may (a function of the analysed tree is read for such a store, depth <= 3; a
+    method of self that does not resolve may).  Other parameters are the name /
+    constant handed in, or a fresh local bound to the argument in front of the body; h's own locals are renamed apart.
+    A list handed to a function of the analysed tree that cannot be read this way is UnknownIdiom (what the callee
+    does to the list is not seen), never skipped."""
+    import copy as _copy
+    from .c01_helpers import _plain_helper
+    cache = p.__dict__.setdefault('_c02_registry_views', {})
+    key = (f.qual, id(f.node))
+    if key in cache:
+        return cache[key]
+    g = aliased_view(p, f)
+    me = g.params()[0] if (g.cls is not None and g.params()) else None
+
+    def is_list(e) -> bool:
+        return isinstance(e, ast.Attribute) and e.attr in (SINKS, STATICS) and isinstance(e.ctx, ast.Load)
+
+    def handed(c: ast.Call) -> bool:
+        return any(is_list(a) for a in list(c.args) + [k.value for k in c.keywords])
+
+    if not any(isinstance(c, ast.Call) and handed(c) and isinstance(p.callee(g, c), Func) for c in walk_no_nested(g.node)):
+        cache[key] = g
+        return g
+    node = _copy.deepcopy(g.node)
+    view = Func(node, f.qual, f.module, f.cls, f.parent)
+    view.nested = f.nested
+    view.origin = getattr(g, 'origin', f)
+    counter = [0]
+
+    def may_rebind_call(h: Func, c: ast.Call, hself: Optional[str], depth: int, seen: Set[str]) -> bool:
+        """May this call (made inside h) store to an attribute called like the lists?  A function of the analysed tree is
+        read (its own stores, its callees, depth <= 3); a method of self that does not resolve may; anything else (a
+        builtin, a method of another object such as the list itself) does not re-bind an attribute of the app."""
+        k = p.callee(h, c)
+        if isinstance(k, Class):
+            k = k.methods.get('__init__') if hasattr(k, 'methods') else None
+            if k is None:
+                return False
+        if not isinstance(k, Func):
+            return isinstance(c.func, ast.Attribute) and isinstance(c.func.value, ast.Name) and c.func.value.id == hself and hself is not None
+        if k.qual in seen:
+            return False
+        seen.add(k.qual)
+        if depth >= 3:
+            return True
+        if any(isinstance(x, ast.Attribute) and x.attr in (SINKS, STATICS) and isinstance(x.ctx, (ast.Store, ast.Del)) for x in ast.walk(k.node)):
+            return True
+        kself = k.params()[0] if (k.cls is not None and k.params()) else None
+        return any(isinstance(x, ast.Call) and may_rebind_call(k, x, kself, depth + 1, seen) for x in ast.walk(k.node))
+
+    def splice(h: Func, call: ast.Call, st) -> List[ast.stmt]:
+        counter[0] += 1
+        tag = '_reg%d_' % counter[0]
+        names = [x.arg for x in h.node.args.args]
+        stored = {x.id for x in ast.walk(h.node) if isinstance(x, ast.Name) and isinstance(x.ctx, (ast.Store, ast.Del))}
+        stored |= {hd.name for hd in ast.walk(h.node) if isinstance(hd, ast.ExceptHandler) and hd.name}
+        actual: Dict[str, ast.AST] = {}
+        formal = names
+        hself = None
+        if h.cls is not None:
+            actual[names[0]] = call.func.value
+            hself = names[0]
+            formal = names[1:]
+        actual.update(zip(formal, call.args))
+        actual.update({k.arg: k.value for k in call.keywords})
+        n_def = len(h.node.args.defaults)
+        for i, nm in enumerate(names):
+            if nm not in actual:
+                actual[nm] = h.node.args.defaults[i - (len(names) - n_def)]
+        body = [s for s in h.node.body if not (isinstance(s, ast.Expr) and isinstance(s.value, ast.Constant))]
+        if body and isinstance(body[-1], ast.Return):
+            body = body[:-1]
+        subst: Dict[str, ast.AST] = {}
+        pre: List[ast.stmt] = []
+        for nm in names:
+            a = actual[nm]
+            if is_list(a):
+                why = None
+                if not (isinstance(a.value, ast.Name) and a.value.id == me and me is not None):
+                    why = 'the list is not an attribute of self at the call'
+                elif nm in stored:
+                    why = 'the helper re-binds its parameter `%s`' % nm
+                elif any(isinstance(x, ast.Attribute) and x.attr in (SINKS, STATICS) and isinstance(x.ctx, (ast.Store, ast.Del)) for x in ast.walk(h.node)):
+                    why = 'the helper stores to the list attribute'
+                else:
+                    uses = [i for i, s in enumerate(body) if any(isinstance(x, ast.Name) and x.id == nm for x in ast.walk(s))]
+                    for s in body[:uses[-1] + 1] if uses else []:
+                        for x in ast.walk(s):
+                            if isinstance(x, ast.Call) and may_rebind_call(h, x, hself, 0, set()):
+                                why = 'the helper calls %s, which may re-bind the list attribute, while it still uses `%s`' % (short(x.func, 60), nm)
+                if why:
+                    raise UnknownIdiom('%s hands %s to %s, which is not read in place (%s)' % (f.qual, short(a), h.qual, why))
+                subst[nm] = a
+            elif nm not in stored and isinstance(a, (ast.Name, ast.Constant)):
+                subst[nm] = a
+            else:
+                subst[nm] = ast.Name(id=tag + nm, ctx=ast.Load())
+                pre.append(ast.copy_location(ast.Assign(targets=[ast.Name(id=tag + nm, ctx=ast.Store())], value=_copy.deepcopy(a)), st))
+        for nm in stored - set(names):
+            subst[nm] = ast.Name(id=tag + nm, ctx=ast.Load())
+
+        class Sub(ast.NodeTransformer):
+            def visit_Name(self, n):
+                r = subst.get(n.id)
+                if r is None:
+                    return n
+                if isinstance(n.ctx, ast.Load):
+                    return ast.copy_location(_copy.deepcopy(r), n)
+                if isinstance(r, ast.Name):
+                    return ast.copy_location(ast.Name(id=r.id, ctx=n.ctx), n)
+                return n
+
+            def visit_ExceptHandler(self, n):
+                self.generic_visit(n)
+                r = subst.get(n.name) if n.name else None
+                if isinstance(r, ast.Name):
+                    n.name = r.id
+                return n
+
+        out = pre + [Sub().visit(_copy.deepcopy(s)) for s in body]
+        if isinstance(st, ast.Return):
+            out.append(ast.copy_location(ast.Return(value=ast.Constant(value=None)), st))
+        return out or [ast.copy_location(ast.Pass(), st)]
+
+    def expand(stmts):
+        out = []
+        for st in stmts:
+            if isinstance(st, (ast.Expr, ast.Return)) and isinstance(st.value, ast.Call) and handed(st.value):
+                h = _plain_helper(p, view, st.value, 'stmt')
+                if h is not None:
+                    out.extend(splice(h, st.value, st))
+                    continue
+            for fld in ('body', 'orelse', 'finalbody'):
+                sub = getattr(st, fld, None)
+                if isinstance(sub, list) and sub and isinstance(sub[0], ast.stmt) and not isinstance(st, (ast.FunctionDef, ast.AsyncFunctionDef, ast.ClassDef)):
+                    setattr(st, fld, expand(sub))
+            for hd in getattr(st, 'handlers', None) or []:
+                hd.body = expand(hd.body)
+            out.append(st)
+        return out
+
+    node.body = expand(node.body)
+    ast.fix_missing_locations(node)
+    # what is still handed over (a call inside an expression, a callee that is no plain helper) is not seen
+    for c in walk_no_nested(node):
+        if isinstance(c, ast.Call) and handed(c):
+            h = p.callee(view, c)
+            if isinstance(h, Func):
+                raise UnknownIdiom('%s hands %s to %s, which is not read in place' % (
+                    f.qual, ' / '.join(sorted({short(a) for a in list(c.args) + [k.value for k in c.keywords] if is_list(a)})), h.qual))
+    cache[key] = view
+    return view
+
+
 class Tables:
     def __init__(self, run):
         p = run.project
@@ -531,7 +694,7 @@ class Tables:
         for f in list(p.all_functions()):
             if not any(isinstance(x, ast.Attribute) and x.attr in (SINKS, STATICS, TABLE) for x in walk_no_nested(f.node)):
                 continue
-            f = aliased_view(p, f)      # (`sinks = self._sinks; sinks.insert(0, entry)` is an insertion into self._sinks)
+            f = _registry_view(p, f)    # (`sinks = self._sinks; sinks.insert(0, entry)` / `self._push(self._sinks, entry)` -> `registry.insert(0, entry)` is an insertion into self._sinks)
             for n in walk_no_nested(f.node):
                 if isinstance(n, ast.Call) and isinstance(n.func, ast.Attribute) and isinstance(n.func.value, ast.Attribute) \
                         and n.func.value.attr in (SINKS, STATICS, TABLE) and n.func.attr in MUTATORS:
@@ -1104,7 +1267,7 @@ def _registration_always_inserts(run, t: 'Tables'):
     memo: Dict[Tuple[str, str], Optional[bool]] = {}
 
     def ins_nodes(f: Func, which: str, stack: Tuple[str, ...]):
-        f = aliased_view(p, f)      # (the Func the table census recorded the insertions under)
+        f = _registry_view(p, f)    # (the Func the table census recorded the insertions under)
         cfg = cfg_of(f, p)
         run.use_cfg(cfg)
         direct = [call for (w, _pol, g, call) in t.insertions if g is f and w == which]
@@ -2468,8 +2631,8 @@ def r12_sink_prefix_identity(run):
     /API/Users falls through to an older sink or to 404."""
     p = run.project
     t = _tables(run)
-    base = aliased_view(p, p.func(APP + '.add_sink'))
-    funcs = [base] + [aliased_view(p, p.classes[cq].methods['add_sink']) for cq in sorted(p.subclasses(APP)) if cq != APP and 'add_sink' in p.classes[cq].methods]
+    base = _registry_view(p, p.func(APP + '.add_sink'))      # (as the table census reads it: aliases and a helper handed the list written out)
+    funcs = [base] + [_registry_view(p, p.classes[cq].methods['add_sink']) for cq in sorted(p.subclasses(APP)) if cq != APP and 'add_sink' in p.classes[cq].methods]
     for f in funcs:
         if 'prefix' not in f.params():
             raise AnchorError('%s has no `prefix` parameter' % f.qual)
